@@ -47,17 +47,17 @@ mutual
 def toNode : JVal → Node
   | .scal _ s => .leaf ⟨s.bytes, s.quoted⟩
   | .empty _ _ => .arr []
-  | .obj _ _ k _ o v rest _ => .obj ((k.bytes, tOp o, toNode v) :: toFields rest)
+  | .obj _ _ k _ o v rest _ => .obj (((k.bytes : Key), tOp o, toNode v) :: toFields rest)
   | .arrS _ _ s0 rest _ => .arr (.leaf ⟨s0.bytes, s0.quoted⟩ :: toNodes rest)
   | .arrC _ first rest _ => .arr (toNode first :: toNodes rest)
   | .ghostIn _ _ _ v => toNode v
   | .mixed .. => .arr []
-def toFields : JFields → List (Bytes × TextDe.Op × Node)
+def toFields : JFields → List (Key × TextDe.Op × Node)
   | .nil => []
-  | .cons _ k _ o v rest => (k.bytes, tOp o, toNode v) :: toFields rest
-  | .consImp _ k v rest => (k.bytes, .eq, toNode v) :: toFields rest
+  | .cons _ k _ o v rest => ((k.bytes : Key), tOp o, toNode v) :: toFields rest
+  | .consImp _ k v rest => ((k.bytes : Key), .eq, toNode v) :: toFields rest
   | .ghost _ _ rest => toFields rest
-  | .consHdr _ k _ o _ h body rest => (k.bytes, tOp o, .hdr h.bytes (toNode body)) :: toFields rest
+  | .consHdr _ k _ o _ h body rest => ((k.bytes : Key), tOp o, .hdr h.bytes (toNode body)) :: toFields rest
   | .paramVal _ _ _ _ _ _ rest => toFields rest
   | .paramObj _ _ _ _ _ _ _ _ _ _ rest => toFields rest
 def toNodes : JVals → List Node
@@ -163,7 +163,7 @@ end
 @[simp] theorem toTTok_end (i : Nat) : toTTok (.endTok i) = .end_ i := rfl
 @[simp] theorem toTTok_header (s : Slice) : toTTok (.header s) = .hdr s.bytes := rfl
 
-theorem tapeNode_obj (base : Nat) (f : Bytes × TextDe.Op × Node) (fs : List (Bytes × TextDe.Op × Node)) :
+theorem tapeNode_obj (base : Nat) (f : Key × TextDe.Op × Node) (fs : List (Key × TextDe.Op × Node)) :
     tapeNode base (.obj (f :: fs)) =
       .obj (base + 1 + TextDe.fieldsTsize (f :: fs)) false :: (tapeFields (base + 1) (f :: fs) ++ [.end_ base]) := by
   simp only [tapeNode, TextDe.tapeFields_len, List.cons_append]
@@ -194,13 +194,13 @@ theorem tapeV_agree : ∀ (v : JVal) (base : Nat) (after : Bytes), PlainV v →
       have hcv := cntV_agree v h.2.1
       have hcf := cntF_agree rest h.2.2
       have hol := opToks_len o
-      have e1 : base + 1 + TextDe.fieldsTsize ((k.bytes, tOp o, toNode v) :: toFields rest)
+      have e1 : base + 1 + TextDe.fieldsTsize (((k.bytes : Key), tOp o, toNode v) :: toFields rest)
           = base + 1 + (1 + o.toks.length + jcntV v) + jcntF rest := by
         simp only [TextDe.fieldsTsize, hcv, hcf, hol]; omega
       have e2 : base + 1 + 1 + (TextDe.opToks (tOp o)).length + TextDe.tsize (toNode v)
           = base + 1 + (1 + o.toks.length + jcntV v) := by rw [hcv, hol]; omega
       simp only [jtapeV, toNode, tapeNode_obj, TextDe.tapeFields_cons, e1, e2, hol,
-        List.map_append, List.map_cons, List.map_nil, toTTok_object, toTTok_end, keyTok_agree _ _ h.1, opToks_agree,
+        List.map_append, List.map_cons, List.map_nil, toTTok_object, toTTok_end, keyTok_agree _ _ h.1, TextDe.Key.plain_ttok, opToks_agree,
         hv, hr, List.cons_append, List.nil_append, List.append_assoc]
       rw [hcv, show base + 1 + 1 + o.toks.length + jcntV v = base + 1 + (1 + o.toks.length + jcntV v) by omega]
   | .arrS _ _ s0 rest gc, base, after, h => by
@@ -241,7 +241,7 @@ theorem tapeF_agree : ∀ (fs : JFields) (base : Nat) (after : Bytes), PlainF fs
       have e2 : base + 1 + (TextDe.opToks (tOp o)).length + TextDe.tsize (toNode v)
           = base + (1 + o.toks.length + jcntV v) := by rw [hcv, hol]; omega
       simp only [jtapeF, toFields, TextDe.tapeFields_cons, e2, hol, List.map_append, List.map_cons, List.map_nil,
-        keyTok_agree _ _ h.1, opToks_agree, hv, hr, List.cons_append, List.nil_append, List.append_assoc]
+        keyTok_agree _ _ h.1, TextDe.Key.plain_ttok, opToks_agree, hv, hr, List.cons_append, List.nil_append, List.append_assoc]
       rw [hcv, show base + 1 + o.toks.length + jcntV v = base + (1 + o.toks.length + jcntV v) by omega]
   | .consImp _ k v rest, base, after, h => by
       simp only [PlainF] at h
@@ -252,7 +252,7 @@ theorem tapeF_agree : ∀ (fs : JFields) (base : Nat) (after : Bytes), PlainF fs
         rw [hcv]; simp [TextDe.opToks]; omega
       have e3 : base + 1 + (TextDe.opToks TextDe.Op.eq).length = base + 1 := by simp [TextDe.opToks]
       simp only [jtapeF, toFields, TextDe.tapeFields_cons, e2, e3, List.map_append, List.map_cons, List.map_nil,
-        keyTok_agree _ _ h.1, hv, hr, List.cons_append, List.nil_append, List.append_assoc]
+        keyTok_agree _ _ h.1, TextDe.Key.plain_ttok, hv, hr, List.cons_append, List.nil_append, List.append_assoc]
       simp only [TextDe.opToks, List.nil_append, List.length_nil, Nat.add_zero, List.cons.injEq, List.append_cancel_left_eq, true_and]
       rw [hcv, show base + 1 + jcntV v = base + (1 + jcntV v) by omega]
   | .ghost _ _ rest, base, after, h => by
@@ -269,7 +269,7 @@ theorem tapeF_agree : ∀ (fs : JFields) (base : Nat) (after : Bytes), PlainF fs
           = base + (1 + o.toks.length + (1 + jcntV body)) := by
         simp only [TextDe.tsize, hcv, hol]; omega
       simp only [jtapeF, toFields, TextDe.tapeFields_cons, tapeNode, e2, hol, List.map_append, List.map_cons,
-        List.map_nil, toTTok_header, keyTok_agree _ _ h.1, opToks_agree, hv, hr, List.cons_append,
+        List.map_nil, toTTok_header, keyTok_agree _ _ h.1, TextDe.Key.plain_ttok, opToks_agree, hv, hr, List.cons_append,
         List.nil_append, List.append_assoc]
       simp only [TextDe.tsize, hcv]
       rw [show base + 1 + o.toks.length + (jcntV body + 1) = base + (1 + o.toks.length + (1 + jcntV body)) by omega]
@@ -681,7 +681,7 @@ theorem itemsV_agree : ∀ (v : JVal), SPlainV v → itemToks (TextReader.itemsV
         itemToks_append, tokOpen, tokClose, List.nil_append, List.cons_append]
   | .obj g g0 k g1 o v rest gc, h => by
       simp only [SPlainV] at h
-      simp only [toDV, TextReader.itemsV, TextReader.itemsM, toNode, lexNode, lexFields, itemToks_cons, itemToks_nil,
+      simp only [toDV, TextReader.itemsV, TextReader.itemsM, toNode, lexNode, TextDe.lexFields_plain, itemToks_cons, itemToks_nil,
         itemToks_append, tokOpen, tokClose, tokOp, keyTok' k h.1, itemsV_agree v h.2.2.1, itemsM_agree rest h.2.2.2,
         List.cons_append, List.append_assoc]
   | .arrS g g0 s0 rest gc, h => by
@@ -700,11 +700,11 @@ theorem itemsM_agree : ∀ (fs : JFields), SPlainF fs → itemToks (TextReader.i
   | .nil, _ => by simp only [toDM, TextReader.itemsM, toFields, lexFields, itemToks_nil]
   | .cons g0 k g1 o v rest, h => by
       simp only [SPlainF] at h
-      simp only [toDM, TextReader.itemsM, toFields, lexFields, itemToks_cons, itemToks_append, tokOp, keyTok' k h.1,
+      simp only [toDM, TextReader.itemsM, toFields, TextDe.lexFields_plain, itemToks_cons, itemToks_append, tokOp, keyTok' k h.1,
         itemsV_agree v h.2.2.1, itemsM_agree rest h.2.2.2]
   | .consHdr g0 k g1 o gh hd body rest, h => by
       simp only [SPlainF] at h
-      simp only [toDM, TextReader.itemsM, TextReader.itemsV, toFields, lexFields, lexNode, itemToks_cons, itemToks_nil,
+      simp only [toDM, TextReader.itemsM, TextReader.itemsV, toFields, TextDe.lexFields_plain, lexNode, itemToks_cons, itemToks_nil,
         itemToks_append, tokOp, keyTok' k h.1, keyTok' hd h.2.2.1, itemsV_agree body h.2.2.2.2.1,
         itemsM_agree rest h.2.2.2.2.2, List.cons_append, List.nil_append, List.append_assoc]
   | .consImp .., h => by simp [SPlainF] at h
